@@ -8,14 +8,15 @@ from .ctx import Machinery
 QUICK = [("mc/MC_MdBlocksQ", "MC_MdBlocksQ_2.cfg"), ("mc/MC_MdBlocksN", "MC_MdBlocksN_2.cfg"), ("mc/MC_MdBlocksD", "MC_MdBlocksD_2.cfg"),
          ("mc/MC_MdBlocksO", "MC_MdBlocksO_3.cfg"), ("mc/MC_MdBlocksT", "MC_MdBlocksT_3.cfg"), ("mc/MC_MdBlocksR", "MC_MdBlocksR_3.cfg"),
          ("mc/MC_MdBlocksH", "MC_MdBlocksH_2.cfg"), ("mc/MC_MdBlocksL", "MC_MdBlocksL_2.cfg"), ("mc/MC_MdBlocksM", "MC_MdBlocksM_3.cfg"),
-         ("mc/MC_MdBlocksK", "MC_MdBlocksK_all.cfg"), ("mc/MC_MdBlocksJ", "MC_MdBlocksJ_all.cfg"), ("mc/MC_MdBlocksG", "MC_MdBlocksG_2.cfg"), ("mc/MC_MdBlocksB", "MC_MdBlocksB_all.cfg")]
+         ("mc/MC_MdBlocksK", "MC_MdBlocksK_all.cfg"), ("mc/MC_MdBlocksJ", "MC_MdBlocksJ_all.cfg"), ("mc/MC_MdBlocksG", "MC_MdBlocksG_2.cfg"), ("mc/MC_MdBlocksB", "MC_MdBlocksB_all.cfg"), ("mc/MC_MdBlocksP", "MC_MdBlocksP_all.cfg")]
 THOROUGH = [("mc/MC_MdBlocksF", "MC_MdBlocksF_2.cfg"), ("mc/MC_MdBlocksQ", "MC_MdBlocksQ_3v.cfg"), ("mc/MC_MdBlocksN", "MC_MdBlocksN_3v.cfg"),
             ("mc/MC_MdBlocksQ", "MC_MdBlocksQ_2.cfg"), ("mc/MC_MdBlocksN", "MC_MdBlocksN_2.cfg"), ("mc/MC_MdBlocksD", "MC_MdBlocksD_2.cfg"),
             ("mc/MC_MdBlocksD", "MC_MdBlocksD_3v.cfg"), ("mc/MC_MdBlocksO", "MC_MdBlocksO_3.cfg"), ("mc/MC_MdBlocksT", "MC_MdBlocksT_3.cfg"),
             ("mc/MC_MdBlocksR", "MC_MdBlocksR_3.cfg"), ("mc/MC_MdBlocksH", "MC_MdBlocksH_2.cfg"), ("mc/MC_MdBlocksH", "MC_MdBlocksH_3v.cfg"),
             ("mc/MC_MdBlocksL", "MC_MdBlocksL_2.cfg"), ("mc/MC_MdBlocksM", "MC_MdBlocksM_3.cfg"), ("mc/MC_MdBlocksL", "MC_MdBlocksL_3.cfg"),
             ("mc/MC_MdBlocksM", "MC_MdBlocksM_4.cfg"), ("mc/MC_MdBlocksK", "MC_MdBlocksK_all.cfg"), ("mc/MC_MdBlocksJ", "MC_MdBlocksJ_all.cfg"),
-            ("mc/MC_MdBlocksG", "MC_MdBlocksG_2.cfg"), ("mc/MC_MdBlocksG", "MC_MdBlocksG_3.cfg"), ("mc/MC_MdBlocksB", "MC_MdBlocksB_all.cfg")]
+            ("mc/MC_MdBlocksG", "MC_MdBlocksG_2.cfg"), ("mc/MC_MdBlocksG", "MC_MdBlocksG_3.cfg"), ("mc/MC_MdBlocksB", "MC_MdBlocksB_all.cfg"),
+            ("mc/MC_MdBlocksP", "MC_MdBlocksP_all.cfg")]
 
 
 def model_docs(ctx, tier):
@@ -116,6 +117,16 @@ def position_docs(tier):
             for tl in tails:
                 docs.append(("", "%sPress %s then %s now\n" % (ctxp, tgc, tl)))
                 docs.append(("", "%sx %s y\n%s%s and %s z\n" % (ctxp, tgc, ind, tl, tgc)))
+    # paragraphs with TAB separators, an inline element, and text after it whose first word also occurs earlier in the line
+    import itertools as _it
+    for ctxp in ("", "> ", "- "):
+        ind = "  " if ctxp == "- " else ctxp
+        for seps in _it.product("\t ", repeat=3):
+            if "\t" not in seps:
+                continue
+            for el in ("*no*", "`no`", "[no](/u)", "<b>no</b>"):
+                docs.append(("", "%syes%syes%s%s%syes done\n" % (ctxp, seps[0], seps[1], el, seps[2])))
+                docs.append(("", "%sFirst line.\n%sSecond%sline with %s in line%sit.\n" % (ctxp, ind, seps[0], el, seps[1])))
     return docs
 
 
